@@ -382,6 +382,14 @@ func runGenesis(t *gen.Trace, r *gen.R, cases int) {
 			_ = ma.SetCoins(coin([]int64{0, 7, 50000}[r.Intn(3)]))
 			accs = append(accs, ma)
 		}
+		// every third case: a PLAIN account with coins sits at the address of a module (nodes / apps module
+		// name: the random operations below never use these two by name).  A later by-name use of the module
+		// (bare GetModuleAccount = "touch") must not destroy those coins.  No PRNG draw.
+		plainAt := ""
+		if c%3 == 1 {
+			plainAt = modNames[4+(c/3)%2]
+			accs = append(accs, &auth.BaseAccount{Address: ak.GetModuleAddress(plainAt), Coins: coin(1000 + int64(c))})
+		}
 		data := auth.GenesisState{Params: authTypes.DefaultParams(), Accounts: accs}
 		kind := "derived"
 		if r.Chance(1, 3) {
@@ -424,6 +432,18 @@ func runGenesis(t *gen.Trace, r *gen.R, cases int) {
 				return bankdrv.ErrClass(call())
 			}()
 			t.Line("genesis-op/"+res, res == "ok", "op %s => %s %s", desc, res, bankdrv.DumpBank(n, n.Ctx()))
+		}
+		if plainAt != "" {
+			res := func() (res string) {
+				defer func() {
+					if p := recover(); p != nil {
+						res = "panic"
+					}
+				}()
+				ak.GetModuleAccount(ctx, plainAt)
+				return "ok"
+			}()
+			t.Line("genesis-touch/"+res, res == "ok", "op touch %s => %s %s", plainAt, res, bankdrv.DumpBank(n, n.Ctx()))
 		}
 	}
 	t.Close(nil)
